@@ -10,6 +10,8 @@ REPO=${VERIF_REPO:-/repo}
   echo
   echo "require github.com/provenance-io/provenance v0.0.0-00010101000000-000000000000"
   echo "replace github.com/provenance-io/provenance => $REPO"
-} > go.mod.new
-if ! cmp -s go.mod.new go.mod 2>/dev/null; then mv go.mod.new go.mod; else rm go.mod.new; fi
-cp "$REPO/go.sum" go.sum
+} > go.mod.new.$$
+if ! cmp -s go.mod.new.$$ go.mod 2>/dev/null; then mv go.mod.new.$$ go.mod; else rm go.mod.new.$$; fi
+# go.sum is replaced atomically and only when it differs: other harness builds may be reading it
+cp "$REPO/go.sum" go.sum.new.$$
+if ! cmp -s go.sum.new.$$ go.sum 2>/dev/null; then mv go.sum.new.$$ go.sum; else rm go.sum.new.$$; fi
